@@ -212,5 +212,153 @@ proof {
 
 }
 
+
+// ---- unit stage, fork/join leg: externals of Stage::run / run_add_ons for (&mut T, U)
+/// R6: the type-level list of resource claims (`Resources::Claims`)
+#[verifier::external_body]
+#[verifier::accept_recursive_types(S)]
+pub struct VxResClaims<S> { p: PhantomData<S> }
+pub uninterp spec fn vx_res_compatible<S>(a: VxResClaims<S>, b: VxResClaims<S>) -> bool;
+pub uninterp spec fn vx_res_merged<S>(a: VxResClaims<S>, b: VxResClaims<S>) -> VxResClaims<S>;
+/// the claims of task T's resource views (`Resources::claims()` in the impl for T; K-res)
+pub uninterp spec fn vx_task_res_claims<S, T>() -> VxResClaims<S>;
+#[verifier::external_body]
+pub fn vx_resource_claims<S, T>() -> (c: VxResClaims<S>) ensures c == vx_task_res_claims::<S, T>() { unimplemented!() }
+impl<S> VxResClaims<S> {
+    /// `Claims::default()`: no resource claimed
+    pub uninterp spec fn none() -> VxResClaims<S>;
+    #[verifier::external_body]
+    pub fn default() -> (c: Self) ensures c == Self::none() { unimplemented!() }
+    #[verifier::external_body]
+    pub fn try_merge(self, other: &Self) -> (r: Option<Self>)
+        ensures r is Some == vx_res_compatible(self, *other), r is Some ==> r->0 == vx_res_merged(self, *other) { unimplemented!() }
+    #[verifier::external_body]
+    pub unsafe fn merge_unchecked(self, other: &Self) -> (r: Self)
+        requires vx_res_compatible(self, *other),
+        ensures r == vx_res_merged(self, *other) { unimplemented!() }
+}
+impl<R: Registry> VxClaimMap<R> {
+    #[verifier::external_body]
+    pub fn len(&self) -> (n: usize) { unimplemented!() }
+    #[verifier::external_body]
+    pub fn is_empty(&self) -> (b: bool) { unimplemented!() }
+}
+/// the task of this link of the stage (`self.0: &mut T`): counts how often it was run
+#[verifier::external_body]
+#[verifier::accept_recursive_types(T)]
+pub struct VxTask<T> { p: PhantomData<T> }
+impl<T> VxTask<T> {
+    pub uninterp spec fn runs(&self) -> nat;
+    #[verifier::external_body]
+    pub fn run<R: Registry, S>(&mut self, world: SendableWorld<R, S>) ensures final(self).runs() == old(self).runs() + 1 { unimplemented!() }
+}
+#[verifier::external_body]
+pub struct VxHasRun { _p: () }
+#[verifier::external_body]
+pub struct VxNextStages { _p: () }
+/// the rest of the stage (`self.1: U`): records the claim table and the resource claims it is handed
+#[verifier::external_body]
+#[verifier::accept_recursive_types(R)]
+#[verifier::accept_recursive_types(S)]
+pub struct VxRest<R: Registry, S> { p: PhantomData<(R, S)> }
+impl<R: Registry, S> VxRest<R, S> {
+    pub uninterp spec fn handed(&self) -> Seq<(IMap<IdentifierRef<R>, VxClaims<R>>, VxResClaims<S>)>;
+    #[verifier::external_body]
+    pub fn run(&mut self, world: SendableWorld<R, S>, borrowed_archetypes: VxClaimMap<R>, resource_claims: VxResClaims<S>, has_run: VxHasRun, next_stage: &mut VxNextStages) -> (r: VxHasRun)
+        ensures final(self).handed() == old(self).handed().push((borrowed_archetypes@, resource_claims)) { unimplemented!() }
+    #[verifier::external_body]
+    pub unsafe fn run_add_ons(&mut self, world: SendableWorld<R, S>, borrowed_archetypes: VxClaimMap<R>, resource_claims: VxResClaims<S>) -> (r: VxHasRun)
+        ensures final(self).handed() == old(self).handed().push((borrowed_archetypes@, resource_claims)) { unimplemented!() }
+}
+/// `(&mut T, U)`
+pub struct VxLink<R: Registry, S, T>(pub VxTask<T>, pub VxRest<R, S>);
+
+impl<R: Registry, Resources, T> VxLink<R, Resources, T> {
+    pub fn run(&mut self, world: SendableWorld<R, Resources>, mut borrowed_archetypes: VxClaimMap<R>, resource_claims: VxResClaims<Resources>, has_run: (bool, VxHasRun), next_stage: &mut VxNextStages) -> (r: VxHasRun)
+        requires
+            !has_run.0 ==> vx_all_compatible(borrowed_archetypes@, vx_task_claims::<R, Resources, T>(world), vx_task_claims::<R, Resources, T>(world).len() as int) && vx_res_compatible(resource_claims, vx_task_res_claims::<Resources, T>()),
+        ensures
+            final(self).0.runs() == old(self).0.runs() + (if has_run.0 { 0nat } else { 1nat }),
+            final(self).1.handed().len() == old(self).1.handed().len() + 1 && old(self).1.handed() == final(self).1.handed().drop_last() && (if has_run.0 { final(self).1.handed().last().0 == borrowed_archetypes@ } else { vx_recorded(borrowed_archetypes@, final(self).1.handed().last().0, vx_task_claims::<R, Resources, T>(world), vx_task_claims::<R, Resources, T>(world).len() as int) }),
+            final(self).1.handed().last().1 == (if has_run.0 { resource_claims } else { vx_res_merged(resource_claims, vx_task_res_claims::<Resources, T>()) }),
+    {
+
+
+        if has_run.0 {
+            self.1.run(
+                world,
+                borrowed_archetypes,
+                resource_claims,
+                has_run.1,
+                next_stage,
+            )
+        } else {
+            { let vx_first = {
+
+                    stage::query_archetype_identifiers_unchecked::<R, Resources, T>(world, &mut borrowed_archetypes);
+
+                    let resource_claims =
+
+                        unsafe { resource_claims.merge_unchecked(&vx_resource_claims::<Resources, T>()) };
+
+                    self.1.run(
+                        world,
+                        borrowed_archetypes,
+                        resource_claims,
+                        has_run.1,
+                        next_stage,
+                    )
+                }; self.0.run(world); vx_first }
+        }
+    
+    }
+
+    pub unsafe fn run_add_ons(&mut self, world: SendableWorld<R, Resources>, mut borrowed_archetypes: VxClaimMap<R>, resource_claims: VxResClaims<Resources>) -> (r: (bool, VxHasRun))
+        ensures
+            r.0 == (vx_res_compatible(vx_task_res_claims::<Resources, T>(), resource_claims) && vx_all_compatible(borrowed_archetypes@, vx_task_claims::<R, Resources, T>(world), vx_task_claims::<R, Resources, T>(world).len() as int)),
+            final(self).0.runs() == old(self).0.runs() + (if r.0 { 1nat } else { 0nat }),
+            final(self).1.handed().len() == old(self).1.handed().len() + 1 && old(self).1.handed() == final(self).1.handed().drop_last() && (if r.0 { vx_recorded(borrowed_archetypes@, final(self).1.handed().last().0, vx_task_claims::<R, Resources, T>(world), vx_task_claims::<R, Resources, T>(world).len() as int) } else { final(self).1.handed().last().0 == borrowed_archetypes@ }),
+            r.0 ==> final(self).1.handed().last().1 == vx_res_merged(vx_task_res_claims::<Resources, T>(), resource_claims),
+            !r.0 ==> final(self).1.handed().last().1 == resource_claims || final(self).1.handed().last().1 == vx_res_merged(vx_task_res_claims::<Resources, T>(), resource_claims),
+    {
+
+        if let Some(resource_claims) = vx_resource_claims::<Resources, T>().try_merge(&resource_claims) {
+            if stage::query_archetype_identifiers::<R, Resources, T>(world, &mut borrowed_archetypes)
+            {
+                { let vx_first = {
+                        (
+                            true,
+
+                            unsafe {
+                                self.1
+                                    .run_add_ons(world, borrowed_archetypes, resource_claims)
+                            },
+                        )
+                    }; self.0.run(world); vx_first }
+            } else {
+                (
+                    false,
+
+                    unsafe {
+                        self.1
+                            .run_add_ons(world, borrowed_archetypes, resource_claims)
+                    },
+                )
+            }
+        } else {
+            (
+                false,
+
+                unsafe {
+                    self.1
+                        .run_add_ons(world, borrowed_archetypes, resource_claims)
+                },
+            )
+        }
+    
+    }
+
+}
+
 } // verus!
 fn main() {}
